@@ -64,6 +64,35 @@ func c11Oracle(cr *caseRun) [][2]string {
 			}
 		}
 	}
+	// interfaces embedded in a converter interface: their methods are converter methods, whose
+	// notation lines are consumed like those written inside the converter interface itself
+	embedded := map[string]bool{}
+	ast.Inspect(in, func(n ast.Node) bool {
+		ts, ok := n.(*ast.TypeSpec)
+		if !ok || !conv[ts.Name.Name] {
+			return true
+		}
+		if it, ok := ts.Type.(*ast.InterfaceType); ok {
+			for _, f := range it.Methods.List {
+				if id, ok := f.Type.(*ast.Ident); ok && len(f.Names) == 0 {
+					embedded[id.Name] = true
+				}
+			}
+		}
+		return true
+	})
+	isEmbeddedDecl := func(d ast.Decl) bool { return isConverterDecl(d, embedded) }
+	dropNotationLines := func(s string) string {
+		var keep []string
+		for _, l := range strings.Split(s, "\n") {
+			t := strings.TrimSpace(l)
+			if t == "" || reNotationLine.MatchString(t) {
+				continue
+			}
+			keep = append(keep, l)
+		}
+		return strings.Join(keep, "\n")
+	}
 	// 1. declarations other than imports and converter interfaces are carried over unchanged, in order
 	var inDecls, outDecls []string
 	for _, d := range in.Decls {
@@ -74,6 +103,10 @@ func c11Oracle(cr *caseRun) [][2]string {
 			if n := len(inDecls); n == 0 || inDecls[n-1] != "<converter>" {
 				inDecls = append(inDecls, "<converter>")
 			}
+			continue
+		}
+		if isEmbeddedDecl(d) {
+			inDecls = append(inDecls, dropNotationLines(renderDecl(fsetI, in, d)))
 			continue
 		}
 		inDecls = append(inDecls, renderDecl(fsetI, in, d))
@@ -89,6 +122,10 @@ func c11Oracle(cr *caseRun) [][2]string {
 				}
 				continue
 			}
+		}
+		if isEmbeddedDecl(d) {
+			outDecls = append(outDecls, dropNotationLines(renderDecl(fsetO, out, d)))
+			continue
 		}
 		outDecls = append(outDecls, renderDecl(fsetO, out, d))
 	}
@@ -174,7 +211,11 @@ func c11Oracle(cr *caseRun) [][2]string {
 	}
 	// 4. every comment of the setup file outside converter interfaces (and other than directives) survives
 	convSpans := [][2]token.Pos{}
+	embSpans := [][2]token.Pos{}
 	for _, d := range in.Decls {
+		if isEmbeddedDecl(d) {
+			embSpans = append(embSpans, [2]token.Pos{d.Pos(), d.End()})
+		}
 		if isConverterDecl(d, conv) {
 			start := d.Pos()
 			if gd := d.(*ast.GenDecl); gd.Doc != nil {
@@ -204,6 +245,15 @@ func c11Oracle(cr *caseRun) [][2]string {
 				continue
 			}
 			t := c.Text
+			inEmb := false
+			for _, sp := range embSpans {
+				if sp[0] <= c.Pos() && c.Pos() <= sp[1] {
+					inEmb = true
+				}
+			}
+			if inEmb && reNotationLine.MatchString(t) {
+				continue // a method-level notation of a promoted converter method
+			}
 			if (strings.HasPrefix(t, "//go:build") || strings.HasPrefix(t, "// +build")) && strings.Contains(t, "convergen") {
 				continue
 			}
